@@ -168,7 +168,14 @@ class Parser:
     def parse(self, filepath: str) -> Proto:
         """Parse a bitproto from given file."""
         with open(filepath) as f:
-            return self.parse_string(f.read(), filepath=filepath)
+            try:
+                s = f.read()
+            except UnicodeDecodeError as error:
+                raise GrammarError(
+                    message=f"Invalid text encoding: {error.reason}",
+                    filepath=filepath,
+                )
+        return self.parse_string(s, filepath=filepath)
 
     def parse_child(self, filepath: str) -> Proto:
         """Parse a child bitproto from given file.
